@@ -53,12 +53,14 @@ Unpublished(c) == Rank(ClassVis(c)) > MinRank /\ ~AnyVisibleMember(c)
 ProtType(x) == IF IsClassT(x) THEN Cls(x.c).outer # 0 /\ Rank(ClassVis(x.c)) > 1
                ELSE Rank(VisAt(x.c, x.i)) > 1
 
-\* the type a signature mentions (at most one in this alphabet)
-HasRef(m) == m.rc # 0
-RefOf(m) == [c |-> m.rc, i |-> m.ri]
+\* the type a signature mentions (at most one in this alphabet).  Every predicate that says "the signature involves T"
+\* ranges over the ALIAS-EXPANDED type: a typedef / using alias (of an alias ...) stands for the type it finally names,
+\* with every pointer / reference / const / rvalue-reference wrapper met on the way.
+HasRef(m) == m.rc # 0 \/ m.ra # 0
+RefOf(m) == IF m.ra # 0 THEN CT(TargetClass(m.ra)) ELSE [c |-> m.rc, i |-> m.ri]
 SigProtected(m) == HasRef(m) /\ ProtType(RefOf(m))
-SigIgnored(m) == HasRef(m) /\ m.ri = 0 /\ Cmd.c = "ignoreinvolved" /\ Cmd.k = m.rc
-SigRvalue(m) == m.k \in {"rval", "rfunc"}
+SigIgnored(m) == HasRef(m) /\ RefOf(m).i = 0 /\ Cmd.c = "ignoreinvolved" /\ Cmd.k = RefOf(m).c
+SigRvalue(m) == m.k \in {"rval", "rfunc"} \/ (m.ra # 0 /\ "rref" \in ChainWraps(m.ra))
 
 \* would get_type() walk the members of class c?  (define_struct_type's early returns)
 Definable(c) ==
@@ -69,7 +71,7 @@ Definable(c) ==
 ---------------------------------------------------------------------------
 (* (a) THE RULE                                                            *)
 
-MethodKinds == {"meth", "smeth", "ctor", "usep", "user", "usee", "rval", "gct", "dtor",
+MethodKinds == {"meth", "smeth", "ctor", "usep", "user", "usee", "usea", "reta", "rval", "gct", "dtor",
                 "vmeth", "vdtor", "sig", "opeq", "opneg", "cast"}
 DataKinds == {"data", "datap", "cdata", "sdata"}
 \* a member function of a defined class is callable iff
@@ -94,8 +96,8 @@ NestGate(c, i) == LET m == Mbr(c, i) IN
 \* namespace-scope declarations: build() only looks at the global scope of S_local files
 TopGate(t) == LET d == lib.tops[t] IN
   /\ ~d.ns /\ LocalFile(d.file) /\ Rank(TopVis(t)) <= MinRank
-  /\ d.k \in {"func", "usef", "var", "macro"}
-  /\ ~SigProtected(d) /\ ~SigIgnored(d)
+  /\ d.k \in {"func", "usef", "usefa", "var", "macro"}
+  /\ ~SigProtected(d) /\ ~SigIgnored(d) /\ ~SigRvalue(d)
 \* "sfunc", "dfunc", "tfunc", "rfunc", "fmacro" never; "tdefc" is a type, below
 
 ScanClass(c) == Cls(c).outer = 0 /\ ~Cls(c).ns /\ LocalFile(Cls(c).file) /\ ~Unpublished(c)
@@ -106,7 +108,22 @@ TypedefGate(t) == LET d == lib.tops[t] IN
   /\ d.k = "tdefc" /\ ~d.ns /\ LocalFile(d.file)
   /\ Forced(d.rc) \/ (LocalFile(Cls(d.rc).file) /\ ~Unpublished(d.rc))
 
+\* a namespace-scope `typedef X A;` scans the struct X it names directly (build()); scan_typedef_type gives the typedef
+\* itself a global record - which names X - when the chain of plain aliases ends in a struct.  (`using` aliases are
+\* alias declarations, not typedefs, to build(): they are only reached on demand.)
+PlainChain(a) == ChainWraps(a) = {}
+ScanAliasStruct(a) == LET A == Ali(a) IN
+  /\ A.scope = 0 /\ A.form = "typedef" /\ A.wrap = "plain" /\ A.tt = "cls"
+  /\ LocalFile(Cls(A.tc).file) /\ ~Unpublished(A.tc)
+AliasGate(a) == LET A == Ali(a) X == TargetClass(a) IN
+  /\ A.scope = 0 /\ A.form = "typedef" /\ LocalFile(A.file) /\ PlainChain(a)
+  /\ Forced(X) \/ (LocalFile(Cls(X).file) /\ ~Unpublished(X))
+\* a nested alias of a struct is walked like a nested type
+NestAliasGate(c, i) == LET m == Mbr(c, i) IN
+  m.k = "alias" /\ PlainChain(m.ra) /\ Rank(VisAt(c, i)) <= MinRank
+
 Roots == {CT(c) : c \in {x \in 1..NC : ScanClass(x) \/ Forced(x)}}
+         \cup {CT(TargetClass(a)) : a \in {x \in 1..NA : ScanAliasStruct(x) \/ AliasGate(x)}}
          \cup {CT(lib.tops[t].rc) : t \in {x \in 1..NT : ScanTypedef(x) \/ TypedefGate(x)}}
          \cup {RefOf(lib.tops[t]) : t \in {x \in 1..NT : TopGate(x) /\ HasRef(lib.tops[x])}}
 
@@ -122,6 +139,7 @@ Demands(x) ==
             THEN {RefOf(Mbr(c, i)) : i \in {j \in 1..NM(c) : (MethodGate(c, j) \/ DataGate(c, j)) /\ HasRef(Mbr(c, j))}}
                  \cup {CT(Mbr(c, i).rc) : i \in {j \in 1..NM(c) : NestGate(c, j) /\ Mbr(c, j).k = "nclass"}}
                  \cup {ET(c, i) : i \in {j \in 1..NM(c) : NestGate(c, j) /\ Mbr(c, j).k = "enum"}}
+                 \cup {CT(TargetClass(Mbr(c, i).ra)) : i \in {j \in 1..NM(c) : NestAliasGate(c, j)}}
             ELSE {})
 
 RECURSIVE Closure(_)
@@ -135,6 +153,7 @@ RCallable ==
   \cup {[t |-> "t", c |-> 0, i |-> t] : t \in {x \in 1..NT : TopGate(x)}}
 RGlobal == {CT(c) : c \in {x \in 1..NC : ScanClass(x) \/ Forced(x)}}
            \cup {CT(lib.tops[t].rc) : t \in {x \in 1..NT : ScanTypedef(x)}}
+           \cup {CT(Ali(a).tc) : a \in {x \in 1..NA : ScanAliasStruct(x)}}
            \cup {x \in RDefined : IsClassT(x)}
 \* a defined class has a destructor function unless it declares an inaccessible one
 HasDtor(c) == \A i \in 1..NM(c) : Mbr(c, i).k \in {"dtor", "vdtor"} => MethodGate(c, i)
@@ -166,6 +185,16 @@ ScanStep ==
               IF ~Cls(c).ns /\ LocalFile(Cls(c).file) /\ ~(Rank(ClassVis(c)) > MinRank /\ ~AnyVisibleMember(c))
                 THEN Request({CT(c)}) /\ glob' = glob \cup {CT(c)} /\ UNCHANGED calls
                 ELSE UNCHANGED <<req, glob, calls>>
+         ELSE IF o.t = "a"
+         THEN LET A == Ali(o.id)
+                  X == TargetClass(o.id)
+                  direct == A.form = "typedef" /\ A.wrap = "plain" /\ A.tt = "cls"
+                  scanX == direct /\ LocalFile(Cls(X).file) /\ ~Unpublished(X)             \* scan_struct_type
+                  typedefOK == /\ A.form = "typedef" /\ LocalFile(A.file) /\ ChainWraps(o.id) = {}   \* scan_typedef_type
+                               /\ (Forced(X) \/ (LocalFile(Cls(X).file) /\ ~Unpublished(X))) IN
+              /\ Request(IF scanX \/ typedefOK THEN {CT(X)} ELSE {})
+              /\ glob' = IF scanX THEN glob \cup {CT(X)} ELSE glob
+              /\ UNCHANGED calls
          ELSE LET t == o.id
                   d == lib.tops[t] IN
               IF d.ns THEN UNCHANGED <<req, glob, calls>>          \* namespaces are not entered
@@ -177,8 +206,8 @@ ScanStep ==
                      /\ glob' = IF scanX THEN glob \cup {CT(X)} ELSE glob
                      /\ UNCHANGED calls
               ELSE IF /\ LocalFile(d.file) /\ Rank(TopVis(t)) <= MinRank
-                      /\ d.k \in {"func", "usef", "var", "macro"}
-                      /\ ~SigProtected(d) /\ ~SigIgnored(d)
+                      /\ d.k \in {"func", "usef", "usefa", "var", "macro"}
+                      /\ ~SigProtected(d) /\ ~SigIgnored(d) /\ ~SigRvalue(d)
                 THEN /\ calls' = calls \cup {[t |-> "t", c |-> 0, i |-> t]}
                      /\ Request(IF HasRef(d) THEN {RefOf(d)} ELSE {})
                      /\ UNCHANGED glob
@@ -221,7 +250,11 @@ DefineStep ==
                                    (Rank(VisAt(c, i)) <= MinRank \/ (Mbr(c, i).k = "nclass" /\ Forced(Mbr(c, i).rc)))}
                        refs == {RefOf(Mbr(c, i)) : i \in {j \in meths \cup elems : HasRef(Mbr(c, j))}}
                                \cup {CT(Mbr(c, i).rc) : i \in {j \in nests : Mbr(c, j).k = "nclass"}}
-                               \cup {ET(c, i) : i \in {j \in nests : Mbr(c, j).k = "enum"}} IN
+                               \cup {ET(c, i) : i \in {j \in nests : Mbr(c, j).k = "enum"}}
+                               \* a nested typedef whose chain of plain aliases ends in a struct
+                               \cup {CT(TargetClass(Mbr(c, i).ra)) :
+                                        i \in {j \in 1..NM(c) : Mbr(c, j).k = "alias" /\ ChainWraps(Mbr(c, j).ra) = {}
+                                                                  /\ Rank(VisAt(c, j)) <= MinRank}} IN
                    /\ defd' = defd \cup {x}
                    /\ glob' = glob \cup {x}                          \* "a struct type should always be global"
                    /\ calls' = calls \cup {[t |-> "m", c |-> c, i |-> i] : i \in meths}
